@@ -1229,7 +1229,7 @@ def run(ctx):
     n_genre = sum(1 for c in cases if c['kind'] == 'genre')
     n_oracle_only = n_genre + sum(1 for c in cases if c.get('oracle_only') or (c['kind'] in ('gen', 'sink') and c.get('frac')))
     cov = {'evaluations': len(cases) - n_oracle_only, 'distinct_nontrivial': nontriv,
-           'rule': 'generator scripts, sink delivery scripts and random pipelines (chains of 1-4 elements from 10 kinds, optional FlowDemux / FIBDemux fan-out/fan-in, the FIBDemux with a route update during the run); non-trivial = distinct case (pipelines: more than one element or a fan-out); oracle-only cases with 2-3 packet switches alive in one process',
+           'rule': 'generator scripts, sink delivery scripts and random pipelines (chains of 1-4 elements from 10 kinds, SP/DRR/WFQ/VC with a many-to-one flow2class map in 40% of the draws, optional FlowDemux / FIBDemux fan-out/fan-in, the FIBDemux with a route update during the run); non-trivial = distinct case (pipelines: more than one element or a fan-out); oracle-only cases with 2-3 packet switches alive in one process',
            'samples': samples, 'traces_validated_against_impl': len(impl) - len(dis), 'packets_through_pipelines': npk,
            'operation_histogram': dict(sorted(hist.items())), 'network_replay': net_cov,
            'oracle_only': {'generators_with_distributions_re-pointed_while_running': n_genre,
